@@ -738,9 +738,11 @@ def shards(tier):
     if tier == "quick":
         return ([("main", k) for k in range(10)] + [("multi", k) for k in range(3)] + [("real0", k) for k in range(2)]
                 + [("multih", 0), ("real0h", 0), ("diag", 0)] + [("real", k) for k in range(2)])
-    return ([("main", k) for k in range(40)] + [("multi", k) for k in range(8)] + [("multih", k) for k in range(4)]
-            + [("real0", k) for k in range(6)] + [("real0h", k) for k in range(4)] + [("diag", k) for k in range(6)]
-            + [("real", k) for k in range(8)] + [("real2", k) for k in range(4)] + [("big", 64), ("big", 65)])
+    # longest shards first (the pool hands shards out in order): full-size real streams, then the slow strata
+    return ([("big", 64), ("big", 65)] + [("real2", k) for k in range(4)] + [("real", k) for k in range(8)]
+            + [("multi", k) for k in range(8)] + [("real0", k) for k in range(6)]
+            + [("main", k) for k in range(40)] + [("multih", k) for k in range(4)]
+            + [("real0h", k) for k in range(4)] + [("diag", k) for k in range(6)])
 
 
 def run_shard(spec, ctx):
@@ -748,7 +750,7 @@ def run_shard(spec, ctx):
     if kind == "main":
         run_given(cases("main"), body, ctx, ctx.pick(250, 1500))
     elif kind == "multi":
-        run_given(multi_cases("make_sequence"), body, ctx, ctx.pick(150, 3000))
+        run_given(multi_cases("make_sequence"), body, ctx, ctx.pick(150, 1000))
     elif kind == "multih":
         run_given(multi_cases("header_unit"), body, ctx, ctx.pick(2000, 15000))
     elif kind == "real0":
